@@ -84,6 +84,12 @@ class KFLWorld(engine.World):
                     ("snapshot", 1.0), ("restore", 1.0)):
       if p.chance(0.7):
         kinds.append((kind, w * p.log10_uniform(-0.5, 0.5)))
+    if p.sub("focus").chance(0.2):
+      # Focus profile: arbitrary weights (raw writes, restored snapshots)
+      # repaired by finalize_constraints() / manual constraint application
+      # alone, which uses its own constraint objects.
+      kinds = [("step", 3.0), ("raw_write", 4.0), ("finalize", 4.0),
+               ("manual", 2.0), ("snapshot", 1.0), ("restore", 1.0)]
     fam_mode = p.weighted([("new", 2), ("legacy", 2), ("both", 5)])
     fams = {"new": ["new"], "legacy": ["legacy"], "both": ["new", "legacy"]}[
         fam_mode]
